@@ -19,7 +19,9 @@ def Kind.idx : Kind → Nat
 /-- the rule for `t1.type_ <= t2.type_`, different actors -/
 def depOrdered (t1 t2 : Label) : Bool :=
   match t1.kind, t2.kind with
-  -- rule_all(RANDOM, ALWAYS_INDEP) overwrites everything
+  -- rule_all(RANDOM, ALWAYS_INDEP) overwrites everything but RANDOM x ACTOR_CREATE, which is EVAL_T2_ACTOR_CREATE again
+  -- (repair of `odpor-random-with-created-actor-spurious-crash`: before it this cell was ALWAYS_INDEP too)
+  | .random, .actorCreate => t2.obj == t1.aid
   | .random, _ => false
   -- rule_all_actor_join / rule_all_actor_create (create written last: JOIN x CREATE is EVAL_T2_ACTOR_CREATE)
   | .actorJoin, .actorJoin => t1.obj == t2.aid || t2.obj == t1.aid
@@ -27,13 +29,22 @@ def depOrdered (t1 t2 : Label) : Bool :=
   | .actorJoin, _ => t1.obj == t2.aid
   | .actorCreate, .actorCreate => true
   | .actorCreate, _ => t1.obj == t2.aid
-  -- barrier
-  | .barAsyncLock, .barWait => t1.obj == t2.obj
+  -- barrier: EVAL_BARRIER_DEPENDS (BarrierTransition::depends: same barrier and not WAIT/WAIT).  LOCK x LOCK was
+  -- ALWAYS_INDEP before the repair of `barrier-lock-lock-declared-independent`
+  | .barAsyncLock, .barAsyncLock | .barAsyncLock, .barWait => t1.obj == t2.obj
   -- communications (no timeout)
   | .commAsyncRecv, .commAsyncRecv => t1.obj == t2.obj
   | .commAsyncSend, .commAsyncSend => t1.obj == t2.obj
-  | .commAsyncRecv, .commTest | .commAsyncSend, .commTest =>
+  -- EVAL_COMM_RECV_TEST / EVAL_COMM_SEND_TEST: since the repair of `commtest-on-pending-comm-declared-independent` a test
+  -- on a comm without receiver (resp. sender; `0` here, -1 in simgrid) depends on every recv (resp. send) of its mailbox
+  | .commAsyncRecv, .commTest =>
     if t1.obj != t2.obj then false
+    else if t2.dst == 0 then true
+    else if t1.aid != t2.src && t1.aid != t2.dst then false
+    else t2.obj2 == t1.obj2
+  | .commAsyncSend, .commTest =>
+    if t1.obj != t2.obj then false
+    else if t2.src == 0 then true
     else if t1.aid != t2.src && t1.aid != t2.dst then false
     else t2.obj2 == t1.obj2
   | .commAsyncRecv, .commWait | .commAsyncSend, .commWait =>
